@@ -238,12 +238,56 @@ def replay_B3(L, case, md, name=''):
         if out.raw[so:] != out0[so:]: diffs.append('bytes beyond the digest length were written')
     return bool(diffs), 'blake2b_final(buflen=%d, S.outlen=%d, outlen=%d)' % (buflen, so, outlen), diffs
 
-NAME_ONLY = ('B2', 'B3')      # drivers that can run from the case name alone (model may be empty: syntactic mismatch)
+def replay_R1(L, case, md, name='', fn='randomx_reciprocal'):
+    """real randomx_reciprocal / randomx_reciprocal_fast on the solver's divisor (then on other divisors of the same bit length) vs floor(2^(63+bitlen)/d)"""
+    import re
+    lib = ctypes.CDLL(os.path.join(os.path.dirname(L._name), [f for f in os.listdir(os.path.dirname(L._name)) if f.startswith('librandomx')][0]))
+    f = getattr(lib, fn); f.restype = ctypes.c_uint64; f.argtypes = [ctypes.c_uint32 if fn == 'randomx_reciprocal' else ctypes.c_uint64]
+    env = Env(md); cands = []
+    for k in ('d_int', 'd'):
+        if isinstance(md.get(k), int): cands.append(md[k] & 0xffffffff)
+    m = re.search(r'(\d+)-bit', name) or re.search(r'bit length (\d+)', name); rnd = random.Random(7)
+    if m:
+        b = int(m.group(1)); lo, hi = (1 << (b - 1)) + 1, (1 << b) - 1
+        if lo <= hi: cands += [lo, hi] + [rnd.randint(lo, hi) for _ in range(4000)]
+    for d in cands:
+        if d == 0 or d & (d - 1) == 0: continue
+        got = f(d); exp = _rcp(d)
+        if got != exp: return True, '%s(%d)' % (fn, d), ['real code %#x, floor(2^(63+bitlen)/d) = %#x' % (got, exp)]
+    return False, '%s on %d divisors (solver value first)' % (fn, len(cands)), []
+def replay_R2(L, case, md, name=''): return replay_R1(L, case, md, name, 'randomx_reciprocal_fast')
+
+def replay_S4(L, case, md, name=''):
+    """one SuperscalarHash instruction through the real interpreter (executeSuperscalar) and through the bytes the real JIT emits for it (host CPU)"""
+    import re
+    from engine import x86native
+    from lemmas.sshash import kind_numbers, spec_ss
+    m = re.match(r'(\w+) r(\d), r(\d)', name)
+    if not m: return False, 'cannot identify the case from %r' % name, []
+    kind, d, s_ = m.group(1), int(m.group(2)), int(m.group(3)); env = Env(md); KN = kind_numbers(); rnd = random.Random(3)
+    R = [md.get('r%d' % k) if isinstance(md.get('r%d' % k), int) else rnd.getrandbits(64) for k in range(8)]
+    imm32 = env('imm32'); mod = env('mod'); rcp = env('rcp_value', 0x9e3779b97f4a7c15); isr = kind == 'IMUL_RCP'
+    ins = (ctypes.c_uint8 * 8)(KN[kind], d, s_, mod, *list(struct.pack('<I', 0 if isr else imm32)))
+    bvs = [z3.BitVecVal(x, 64) for x in R]
+    exp = list(R); exp[d] = z3.simplify(spec_ss(kind, bvs, d, s_, z3.BitVecVal(imm32, 32), z3.BitVecVal(mod, 8), z3.BitVecVal(rcp, 64))).as_long()
+    diffs = []
+    ri = (ctypes.c_uint64 * 8)(*R); L.verif_ss_exec(ins, ctypes.c_uint64(rcp), ri)
+    if list(ri) != exp: diffs.append('interpreter: r%d = %#x, specification %#x' % (d, ri[d], exp[d]))
+    out = (ctypes.c_uint8 * 32)(); n = L.verif_ss_emit(ins, ctypes.c_uint64(rcp), out, 32); code = bytes(out[:n])
+    ar = x86native.Arena(0); S0 = x86native.St()
+    for k in range(16): S0.gpr[k] = rnd.getrandbits(64)
+    for k in range(8): S0.gpr[8 + k] = R[k]
+    S0.gpr[6] = ar.sp_addr; S0.mxcsr = 0x1F80
+    ar.run_native(code, S0); rn = [S0.gpr[8 + k] for k in range(8)]
+    if rn != exp: diffs.append('native code [%s]: r%d = %#x, specification %#x' % (' '.join('%02x' % b for b in code), d, rn[d], exp[d]) if rn[d] != exp[d] else 'native code changes another register')
+    return bool(diffs), '%s r%d, r%d imm32=%#x mod=%#x r=%s' % (kind, d, s_, imm32, mod, _h(R)), diffs
+
+NAME_ONLY = ('B2', 'B3', 'R1', 'R2')      # drivers that can run from the case name alone (model may be empty: syntactic mismatch)
 
 def replay_R3(L, case, md, name=''):
     return replay_J1(L, case, md, name) if '(op ' in name else replay_I1(L, case, md, name)
 
-DRIVERS = {'I1': replay_I1, 'J1': replay_J1, 'R3': replay_R3, 'B2': replay_B2, 'B3': replay_B3}
+DRIVERS = {'I1': replay_I1, 'J1': replay_J1, 'R3': replay_R3, 'B2': replay_B2, 'B3': replay_B3, 'R1': replay_R1, 'R2': replay_R2, 'S4': replay_S4}
 
 def replay_many(recs, tag='replay-native', timeout=600):
     """replays each record in a child process (the real code may crash on the solver's input -- which is itself a reproduction).
